@@ -281,7 +281,11 @@ class PropertyDescriptor(Symbol):
         :param domain_value: The domain value to update (i.e., the instance that this descriptor is attached to).
         :param range_value: The range value to update (i.e., the value to set on the managed attribute).
         """
-        v = getattr(domain_value, self.private_attr_name)
+        v = getattr(domain_value, self.private_attr_name, None)
+        if v is None and self.is_iterable:
+            # Inference reached this field before the dataclass __init__ of the instance assigned it: start it empty.
+            self.__set__(domain_value, self.wrapped_field.container_type())
+            v = getattr(domain_value, self.private_attr_name)
         updated = False
         if isinstance(v, MonitoredContainer):
             updated = v._update(range_value, add_relation_to_the_graph=False)
